@@ -59,6 +59,7 @@ func runC40(c *Ctx) {
 	r := c.R
 	r.Rule("C40.R1", "lock order: the graph 'class B acquired while class A is held' over every mutex class of the module (own Lock calls, in-place literals, static and module-interface callees, transitively) is acyclic; no mutex instance is re-acquired while held; function values invoked under a lock are on the reviewed list", 54)
 	r.Rule("C40.R2", "guarded-by: every access to a field of PeerConnection, SCTPTransport, RTPTransceiver, RTPSender, RTPReceiver, DataChannel, operations, TrackLocalStaticRTP/Sample, statsReportCollector respects the field's frozen guard (mutex class held - write mode for writes - with entry locksets for unexported helpers; atomic type used through its methods; immutable after construction; confined to listed functions); objects under construction are exempt", 530)
+	r.Rule("C40.R4", "no element access (range, index, slice) through a local copy of the header of a mutex-guarded slice or map that is edited in place somewhere in the module, unless the guard is held at the access", 0)
 	r.Rule("C40.R3", "no blocking under a lock: no channel receive/send, select without default, range over a channel, WaitGroup.Wait or Cond.Wait executes (directly or through static callees) while a mutex is held, except the reviewed list", 190)
 	r.NotCovered = append(r.NotCovered,
 		"liveness: that every call returns",
@@ -85,6 +86,7 @@ func runC40(c *Ctx) {
 			r.Saw(u.Name)
 		}
 	}
+	c40R4(c)
 	r.Extra["lock_classes"] = classes
 	r.Extra["analysis_units"] = map[string]int{"declared_functions": len(lp.Units) - nLit, "function_literals": nLit}
 	r.Extra["guarded_by_table_entries"] = len(c40Table)
